@@ -426,6 +426,12 @@ func c07Classify(c *C07Case, detail string) string {
 			return "C07-position-in-corrected-copy"
 		}
 	}
+	if c.Kind == "prefix" && strings.Contains(detail, "POSITION-OUTSIDE-INPUT") && !strings.Contains(detail, "UNBOUNDED") && !strings.Contains(detail, "PANIC") {
+		// the bytes that follow the input in the same backing array were read: the listed native over-reads
+		if id := c05Classify(&C05Case{Data: c.input()}, "", false); id != "" {
+			return id
+		}
+	}
 	if c.Kind == "bignum" && strings.Contains(detail, "UNBOUNDED-MESSAGE") && !strings.Contains(detail, "POSITION") && knownListed("C07-number-error-quotes-literal") {
 		var l, d int
 		if j := strings.Index(detail, "err(len="); j >= 0 {
